@@ -215,6 +215,15 @@ class DataInputAbstract(MCNP_Object):
         :raises MalformedInputError: if the name is invalid for this DataInput
         """
         classifier = self._classifier
+        # the only characters that can stand in front of a name are * and + (*TR1, *FILL, +F6)
+        if classifier.modifier is not None and classifier.modifier.value not in {
+            "*",
+            "+",
+        }:
+            raise MalformedInputError(
+                input,
+                f"{classifier.modifier.value} cannot stand in front of the name of a data input: {self._tree['classifier'].format()}",
+            )
         if self._class_prefix:
             if classifier.prefix.value.lower() != self._class_prefix():
                 raise MalformedInputError(
